@@ -286,6 +286,21 @@ pub fn xpath_op(rest: &[&str], a: &Args) -> Option<Outcome> {
     };
     match rest {
         ["query", kind] => xpath_query_op(kind, a),
+        ["func", "substring_range"] => {
+            // the real substring_range against the definition of XPath 1.0 4.2 for one position p (1-based)
+            let len = crate::ops::parse_usize(a.get("len").map(|v| v.as_str()).unwrap_or("0"));
+            let p = crate::ops::parse_usize(a.get("p").map(|v| v.as_str()).unwrap_or("1"));
+            let num = |k: &str| a.get(k).map(|v| parse_f64(v.trim_start_matches("n:")));
+            let start = num("a1").unwrap_or(f64::NAN);
+            let length = num("a2");
+            let observed = guard(|| {
+                let r = fh::substring_range(len, start, length);
+                format!("range_ok={} inside={}", r.start <= r.end && r.end <= len, r.start < p && p <= r.end)
+            });
+            let first = xpath_round(start);
+            let inside = (p as f64) >= first && length.map(|l| (p as f64) < first + xpath_round(l)).unwrap_or(true);
+            Some(Outcome { observed, expected: format!("range_ok=true inside={}", inside), note: String::new() })
+        }
         ["func", name] => {
             let observed = guard(|| {
                 let mut c = Context::default();
@@ -441,7 +456,7 @@ pub const QUERY_DOCS: [&str; 3] = [
     "<r/>",
 ];
 
-pub const QUERIES: [&str; 52] = [
+pub const QUERIES: [&str; 55] = [
     "//c | //a", "//a | //c", "//e | //b | //a", "(//d | //a)[1]", "//b/* | //b", "//@y | //@x", "//a | //a", "/r/* | /r/b/*",
     "//d/preceding::* | //e", "//e/ancestor::* | //a", "//c/.. | //a/..", "//*/.. | //b/c",
     "$x", "/r/@x/..", "/..", "parent::node()", "/r/@x/parent::node()", "//processing-instruction('p')", "id('a')", "/r/a/..",
@@ -449,6 +464,7 @@ pub const QUERIES: [&str; 52] = [
     "position()", "last()", "/r/*[position() = last()]", "/r/*[q:x]", "/r/*[. = //zz:a]", "/r/*[zz:f()]", "//*[nosuch()]",
     "/r/namespace::*[/r]", "//namespace::*[//a]", "/r/namespace::*[/]", "//namespace::*/..", "/r/namespace::*[count(/*) = 1]", "//*/namespace::*[(/r)[1]]",
     "(//d)/preceding-sibling::*", "(//e)/ancestor::*", "(//e)/preceding::*", "(//c)/ancestor-or-self::*", "((//e)/ancestor::*)[last()]", "(//d)/preceding-sibling::*[1]",
+    "/r/a[id('x')]", "//b/id('x')", "count(/r/*[id(.)])",
     "(//*)[nosuch(1)]", "(/r/*)[q:x]", "/r/b[c[q:x]]", "/r/*[1][q:x]", "//b/*[last()][zz:a]", "count(//*[q:x])", "/r/*[$v]",
 ];
 
